@@ -1,7 +1,7 @@
 """C07 -- conditionals (TexCond.tla) and \\expandafter / \\noexpand (TexExpand.tla)."""
 import json
 from vlib import *
-from texvm import texvm_part, texvm_selftest, texvm_consistency
+from texvm import texvm_part, texvm_selftest, texvm_consistency, texvm_suite
 
 LEVEL = "model_checking"
 EXP_DEVS = {"noexpand-lost-under-expandafter": "Trace_TexExpand_dev.cfg"}
@@ -83,6 +83,7 @@ def run(ctx):
     ]
     # ---- the composed model: whole programs over the full primitive set (TexVM.tla) ------------
     texvm_consistency(ctx, "cond")
+    texvm_suite(ctx)
     texvm_part(ctx, 6000 if ctx.quick else 120000, 707)
 
 
